@@ -78,6 +78,10 @@ class SrcSchema:
             self.all_structs.setdefault(name, []).append(fields)
             self.structs.setdefault(name, fields)
             self.derives.setdefault(name, ds)
+        for m in re.finditer(r"\bstruct\s+(\w+)\s*;", src_nc):
+            self.structs.setdefault(m.group(1), [])
+            self.all_structs.setdefault(m.group(1), []).append([])
+            self.derives.setdefault(m.group(1), set())
         for m in re.finditer(r"\benum\s+(\w+)\s*(?:<[^>{]*>)?\s*\{", src_nc):
             name = m.group(1)
             start = m.end() - 1
